@@ -110,6 +110,7 @@ structure StepVerdict where
   chosenMasked : Bool
   bestOff : Nat      -- exact first argmax offset
   uniq : Bool        -- exact choice is unique by more than `δ` (every other candidate loses by > δ)
+  candN2 : List Rat  -- exact squared residual norms of all candidates `p[j:]` (unmasked)
 
 /-- Replay a recorded trace of offsets under the exact model, judging every step:
 the chosen candidate must satisfy `√n2 − c ≥ √n2' − c' − δ` against every candidate. -/
@@ -127,7 +128,7 @@ def replayStep (costs : Nat → Rat) (mask : Mask) (δ : Rat) (st : GState) (j o
   let zs := mask j st.p
   (applyPivot st j (j + off),
    { ok := ok, chosen := c, chosenN2 := st.G.get c c, chosenMasked := zs.getD off false,
-     bestOff := best, uniq := uniq })
+     bestOff := best, uniq := uniq, candN2 := cands.map fun c => st.G.get c c })
 
 def replay (costs : Nat → Rat) (mask : Mask) (δ : Rat) (B : RMat) (tr : List Nat) :
     GState × List StepVerdict :=
